@@ -21,8 +21,9 @@ OBVIOUS_REDIRECTS_RE = re.compile(
 )
 # NOTE: a host can come with a port, and is case-insensitive
 # NOTE: over ascii letters only ("/c/\u017f/", with a long s, is not "/c/s/")
+# NOTE: "bc" is a whole label ("abc.marfeel.com" is another host)
 REDIRECTION_DOMAINS_RE = re.compile(
-    r"(?:\.ampproject\.org(?::\d*)?/[cv]/(?:s/)?|bc\.marfeelcache\.com(?::\d*)?/amp/|bc\.marfeel\.com(?::\d*)?/)",
+    r"(?:\.ampproject\.org(?::\d*)?/[cv]/(?:s/)?|\bbc\.marfeelcache\.com(?::\d*)?/amp/|\bbc\.marfeel\.com(?::\d*)?/)",
     re.I | ASCII,
 )
 GOOGLE_URL_RE = re.compile(r"/url\?(?:[^#]*&)?q=")
